@@ -34,7 +34,20 @@ CFG = {
             "selection), each laid out as real buildpack directories (every 7th graph in a noisy layout: nested dirs, libcnb.rs and composite "
             "kinds, non-libcnb dependency URIs, foreign and unreadable buildpacks that must stay out of the graph); then seeded random DAGs "
             "(1..12 nodes, 12 ids incl. '/', '.', '-', duplicate dependency entries, 1..6 selections with repeated, unknown and empty roots, 3/4 "
-            "in a noisy layout), 1/8 of them with one or two dangling dependencies; the empty workspace. The node order the directory walk "
+            "in a noisy layout), 1/8 of them with one or two dangling dependencies; the empty workspace; big graphs (kind=big): node counts 5, 8, "
+            "16/17, 20/21, 32/33, 64/65, 128/129, 256/257, 300 x 21 shapes (chain in and against directory order, star out of the first / a middle "
+            "node with ascending, descending, shuffled dependency lists, star into the first / last node, stacked diamonds both ways, layered DAG "
+            "with and without long shortcut edges, chain with shortcut edges incl. first->last, binary tree both ways, complete DAG (<=65 nodes), "
+            "many small disconnected components, isolated nodes, bipartite many-roots, every edge listed 2-3 times, sparse random DAG x2; quick: "
+            "at 256, 257, 300 nodes a third of the shapes each, thorough: all, 2 rounds), 6 id styles (common stem + number so that ids are prefixes of one another, "
+            "dotted / slashed nesting x, x.x, x.x/x, case variants a/A, 120-character ids, zero-padded numbers), nodes written in shuffled order in "
+            "half of the cases, 1/10 with a dangling dependency, 10-13 (7-9 at >=256 nodes) explicit root selections each (all nodes in written order and reversed, "
+            "all nodes nothing depends on, single first / last / middle / random nodes, pairs, repeated roots, the first 33, sometimes an unknown "
+            "root and the empty selection), directory layouts plain / noisy / wide (directory names with blanks, non-ASCII, '%', '+', '~', "
+            "sub-delims, upper case, 200-character names, 20 levels deep); 400 (quick) / 3 000 (thorough) medium random DAGs (kind=mid: 1..40 "
+            "nodes, the same id styles, 1/3 of the nodes with duplicated dependency entries, dangling ids that extend an existing id, unknown "
+            "roots that extend an existing id, 1/2 in the wide layout). Cyclic graphs are outside the property (acyclic sets only) and are not "
+            "generated. The node order the directory walk "
             "produced is read from the real graph and handed to the model. family 2 (`pkg`: the real cargo-libcnb executable, one real cargo "
             "workspace per case: a dependency-free fn main(){} crate + component buildpack.toml [+ package.toml with libcnb: dependencies] per "
             "libcnb.rs buildpack, buildpack.toml with [[order]] + package.toml per composite; one run per invocation directory) — exhaustive: "
